@@ -1,15 +1,16 @@
 check("C14", "model_checking",
       "SyltSurface (TLA+) defines the surface sites of a core program (call form paren/prime/arrow/arrow-prime, `ret e` vs trailing expression, "
-      "`loop do` vs `loop true do`, 0-2 redundant parentheses per expression, comment and blank-line points per statement, line breaks / comments / "
-      "blank lines inside every bracket pair, indentation width or tab), when a choice is legal (from the token that follows the call: a prime call "
+      "`loop do` vs `loop true do`, 0-2 redundant parentheses per expression, comment and blank-line points per statement, and inside every bracket-like construct - list, tuple, "
+      "paren and prime argument lists, grouping parentheses, blob literal, blob/enum declaration, `from .. use (..)` list, multi-line conditions - "
+      "a line break at each gap with every interleaving of comment line / blank line / end-of-line comment of length <= 3, indentation width or tab), when a choice is legal (from the token that follows the call: a prime call "
       "swallows everything up to a closer, the right side of `->` must be a whole call, `->` needs a primary on its left and a first argument) and a "
       "token-level model with a reference parser that follows sylt-parser. TLC checks Desugar(Parse(Render(core, choice))) = core for every legal and "
       "'other tree or syntax error' for every illegal raw choice of the call skeletons, and the real parser's tree of every such rendering is compared "
       "with the reference parser's by TLC (so the legality rule is validated, in both directions, against the real grammar). TLC then enumerates the "
-      "variant universe of every program (15 call-heavy skeletons, the shared prelude, SyltGen's pairwise-nesting universe): all legal choice functions "
+      "variant universe of every program (16 skeletons, the shared prelude, SyltGen's pairwise-nesting universe): all legal choice functions "
       "over <= 6 sugar sites, every site toggled, uniform/strided/mixed patterns; every variant is compiled and TLC validates the recorded results "
       "(coverage of the re-derived universe, legality of every recorded choice, accepted, same parser tree, same Lua bytes; the `<!>` line number is "
-      "masked only for variants that move lines). Bounded: quick samples every 24th nesting pair; thorough takes all ~3000 expressions.",
+      "masked only for variants that move lines). Bounded: quick samples every 48th nesting pair; thorough takes all ~3000 expressions.",
       "Trusted: TLC, SyltSurface's site/legality definitions, surface.rs (renderer; strict: a choice it cannot honour is a tool error; the plain "
       "rendering is checked to be byte-identical with printer.rs), astdump, FNV digests. Not offered (said in the evidence): sugar for callees that "
       "are not names/field accesses, `->` with a callee containing a function literal, parentheses around function literals / std names / "
